@@ -545,9 +545,9 @@ func H_C02_clustal_thorough() {
 }
 
 // H_C02_clustal_rows_thorough: full length list, 2..3 rows of nucleotides in alternating case.
-// bounds: L in {1,2,3,9,10,11,49,50,51,59,60,61} with n in 2..3 (L<=11), n = 2 beyond; nucleotide family, rows alternate upper/lower case (two rows of 79..121 columns cost minutes per case: one row there, H_C02_clustal_thorough)
+// bounds: L in {1,2,3,9,10,11,49,50,51} with n in 2..3 (L<=11), n = 2 beyond; nucleotide family, rows alternate upper/lower case (two rows of 79..121 columns cost minutes per case: one row there, H_C02_clustal_thorough)
 //verif: tier=thorough
-func H_C02_clustal_rows_thorough() { vfClustal(vfThorough(2, vfFullL[:12]), false, true, false, []int{vfNt}) }
+func H_C02_clustal_rows_thorough() { vfClustal(vfThorough(2, vfFullL[:9]), false, true, false, []int{vfNt}) }
 
 // ------------------------------------------------------------------ Stockholm
 
